@@ -346,7 +346,7 @@ class StmtMixin:
             # the iterated sequence is evaluated once, before the loop
             p.assume(k <= seq.n)
         if inv is not None:
-            p.assume(inv(ctx_of(p, k)))
+            self.assume_invariant(p, inv, ctx_of, k)
         outs = []
         # 3a. loop continues
         pb = p.clone()
@@ -386,6 +386,31 @@ class StmtMixin:
             if self.feasible(pe):
                 outs += self.exec_block(s.orelse, pe) if s.orelse else [(NEXT, pe, None)]
         return outs
+
+    def assume_invariant(self, p, inv, ctx_of, k):
+        """assume the invariant for the havoced state; conjuncts of the form  <havoced local> == term
+        are used to *define* the local (substitution) so that later terms line up syntactically"""
+        from .expr import _flat_and
+
+        f = inv(ctx_of(p, k))
+        for _round in range(3):
+            subst = []
+            for c in _flat_and(f):
+                if z3.is_eq(c):
+                    a, b = c.arg(0), c.arg(1)
+                    for x, y in ((a, b), (b, a)):
+                        if z3.is_const(x) and x.decl().kind() == z3.Z3_OP_UNINTERPRETED and str(x).startswith("hv.") \
+                                and not _occurs(x, y):
+                            subst.append((x, y))
+                            break
+            if not subst:
+                break
+            x, y = subst[0]
+            for n, v in list(p.env.items()):
+                if isinstance(v, sv._Leaf) and v.e.eq(x):
+                    p.env[n] = sv.rebuild(v, y)
+            f = inv(ctx_of(p, k))
+        p.assume(f)
 
     def havoc_loop_targets(self, s, p, spec=None):
         names, fields, effect_calls = set(), set(), False
@@ -508,6 +533,21 @@ class StmtMixin:
                 alts.append((g, self._fresh_like_at(x, f"{nm}.u{j}", i)))
             return sv.mk_union(alts)
         raise Unsupported(f"cannot havoc list element {proto}")
+
+
+def _occurs(x, e):
+    stack = [e]
+    seen = set()
+    while stack:
+        t = stack.pop()
+        if t.get_id() in seen:
+            continue
+        seen.add(t.get_id())
+        if t.eq(x):
+            return True
+        if z3.is_app(t):
+            stack.extend(t.children())
+    return False
 
 
 class RaisedInExpr(Exception):
